@@ -323,8 +323,46 @@ pub fn harness_err(msg: &str) -> RespVec {
 }
 
 // proxy-to-proxy hop (UMSYNC, UMFORWARD over a data connection; UMCTL/PING over a control client)
+// proxy-to-proxy gates: node = 10 + target proxy holds the REQUEST before it is dispatched, node = 20 + target proxy holds the REPLY on its way
+// back; `cmd` must be one of the (upper-cased) elements of the command, `key` (if not empty) one of its elements
+fn find_p2p_gate(world: &Arc<World>, from: usize, node: usize, cmd: &[Vec<u8>]) -> Option<Arc<Gate>> {
+    let gates = world.gates.lock();
+    gates
+        .iter()
+        .find(|g| {
+            g.owner == from
+                && g.node == node
+                && cmd.iter().any(|c| upper(c) == g.cmd)
+                && (g.key.is_empty() || cmd.iter().any(|c| *c == g.key))
+                && g.armed.swap(false, Ordering::SeqCst)
+        })
+        .cloned()
+}
+
+async fn wait_gate(world: &Arc<World>, g: &Arc<Gate>, cmd: &[Vec<u8>]) {
+    let seq = world.next_seq();
+    world.log(seq, json!({"t": "hold", "seq": seq, "what": "begin", "gate": g.cmd, "node": g.node, "cmd": hex_args(cmd)}));
+    g.was_held.store(true, Ordering::SeqCst);
+    g.holding.store(true, Ordering::SeqCst);
+    let start = Instant::now();
+    let mut by = "timeout";
+    while start.elapsed() < g.max {
+        if g.released.load(Ordering::SeqCst) {
+            by = "signal";
+            break;
+        }
+        tokio::time::sleep(Duration::from_millis(1)).await;
+    }
+    g.holding.store(false, Ordering::SeqCst);
+    let seq = world.next_seq();
+    world.log(seq, json!({"t": "hold", "seq": seq, "what": "end", "gate": g.cmd, "node": g.node, "by": by}));
+}
+
 async fn p2p(world: &Arc<World>, from: usize, to: usize, via: &str, rng: &Rng, cmd: Vec<Vec<u8>>) -> RespVec {
     world.latency(rng).await;
+    if let Some(g) = find_p2p_gate(world, from, 10 + to, &cmd) {
+        wait_gate(world, &g, &cmd).await;
+    }
     let seq0 = world.next_seq();
     let reply = match world.handler(to) {
         Some(h) => match send_cmd(&h, cmd.clone()).await {
@@ -341,6 +379,9 @@ async fn p2p(world: &Arc<World>, from: usize, to: usize, via: &str, rng: &Rng, c
             "cmd": hex_args(&cmd), "reply": resp_to_string(&reply),
         }),
     );
+    if let Some(g) = find_p2p_gate(world, from, 20 + to, &cmd) {
+        wait_gate(world, &g, &cmd).await;
+    }
     reply
 }
 
